@@ -26,7 +26,7 @@ if os.path.exists(V + "/seeded/results.jsonl"):
     for l in open(V + "/seeded/results.jsonl"):
         r = json.loads(l); last[r["seeded"]] = r
 srows = []
-for d in sorted(glob.glob(V + "/seeded/C*-m*")):
+for d in sorted(glob.glob(V + "/seeded/C*-*m[0-9]")):
     sid = os.path.basename(d); m = json.load(open(d + "/meta.json"))
     r = last.get(sid)
     if r is None: res = "not run yet"
